@@ -155,12 +155,18 @@ func (w *world) reset(snap *snapshot) {
 	for _, g := range snap.PGs {
 		must(w.tracker.Create(pgGVR, g.DeepCopy(), ns))
 	}
+	for _, p := range cur.Pods {
+		must(w.tracker.Delete(podGVR, ns, p.Name))
+	}
 	for _, p := range snap.Pods {
-		must(w.tracker.Update(podGVR, p.DeepCopy(), ns))
+		must(w.tracker.Create(podGVR, p.DeepCopy(), ns))
 	}
 	w.events.events = nil
 	w.writes, w.reads = nil, 0
 }
+
+// removePod deletes a pod from the store (models "this replica has not been created yet").
+func (w *world) removePod(name string) { must(w.tracker.Delete(podGVR, ns, name)) }
 
 func (w *world) snapshot() *snapshot {
 	s := &snapshot{}
